@@ -1,0 +1,14 @@
+//go:build verif
+
+// Contracts for package schutils (comment-only; see /verif/DESIGN.md).
+
+package schutils
+
+//@ func Save(sp, name, schema)
+//@   aspect safe
+//@   requires sp != nil
+//@   modifies sp.Definitions, map sp.Definitions
+//@ func Clone(schema)
+//@   aspect safe
+//@   modifies nothing
+//@   ensures result != nil
